@@ -165,7 +165,7 @@ def _drop_commit(ctx, F):
         return
     roots = [F.fn(k) for k in READONLY_CTORS + READ_APIS]
     roots = [r for r in roots if r is not None]
-    ctx.floor('EFFECT-C18d', len(roots), 10, 'read-only constructors and read APIs')
+    ctx.floor('EFFECT-C18d', len(roots), 6, 'read-only constructors and read APIs')
     reach = lib.reachable_fns(F, roots)
     ctx.evaluations += len(reach)
     setters = []
@@ -200,7 +200,7 @@ def run(ctx):
         f = F.fn(k)
         if f is not None and f not in entries:
             entries.append(f)
-    ctx.floor('EFFECT-C18a:entries', len(entries), 100, 'public Memvid self-methods + read-only constructors')
+    ctx.floor('EFFECT-C18a:entries', len(entries), 60, 'public Memvid self-methods + read-only constructors')
     reach = lib.reachable_fns(F, entries)
     uw = UnguardedWrites(F, ignore=tuple(CANDIDATE_VIA))
     uw.solve(reach)
